@@ -1297,7 +1297,7 @@ def add_misid_param(func):
     list, which is the proportion of segregating sites whose ancestral state
     were misidentified.
     """
-    warnings.warning("Inference.add_misid_param is deprecated. Please use the updated Numerics.make_anc_state_misd_func instead.\n", FutureWarning)
+    warnings.warn("Inference.add_misid_param is deprecated. Please use the updated Numerics.make_anc_state_misd_func instead.\n", FutureWarning)
     def misid_func(params, *args, **kwargs):
         misid = params[-1]
         fs = func(params[:-1], *args, **kwargs)
